@@ -100,6 +100,9 @@ def lb_cases(tier, seed):
         s = []
         for _ in range(rng.randint(0, ln)):
             r = rng.random()
+            if r > 0.97:
+                s += [0x0d, 0x0a] if r > 0.98 else [0x0d]      # CR LF is ONE cluster of two one-byte characters
+                continue
             s.append(0x0a if r < 0.08 else 0x20 if r < 0.25 else rng.choice(alpha))
         p = rng.choice(boundaries(s))
         ops = []
@@ -307,6 +310,9 @@ def c04_cases(tier, seed):
         s = []
         for _ in range(rng.randint(0, rng.choice([4, 8, 16, 30]))):
             r = rng.random()
+            if r > 0.96:
+                s += [0x0d, 0x0a] if r > 0.975 else [0x0d]     # CR LF is ONE cluster of two one-byte characters
+                continue
             s.append(0x0a if r < 0.1 else 0x20 if r < 0.3 else rng.choice(alpha))
         p = rng.choice(boundaries(s))
         head = "4096 %s %d" % (enc(s), p)
